@@ -2,6 +2,7 @@ package rlwe
 
 import (
 	"github.com/tuneinsight/lattigo/v6/ring"
+	"github.com/tuneinsight/lattigo/v6/ring/ringqp"
 	"github.com/tuneinsight/lattigo/v6/utils/sampling"
 )
 
@@ -231,6 +232,16 @@ func VerifH_C10_DeepCopies() {
 		ck := c.Kgen.GenEvaluationKeyNew(c.Sk, c.Sk2, EvaluationKeyParameters{Compressed: true})
 		ckc := ck.CopyNew()
 		vAssertDeepEqual(ck, ckc, tag+"-compressed-EvaluationKey-CopyNew-equals-original")
+		// the seed of the copy is its own: wiping it leaves the original (and what it expands to) unchanged
+		vAssert(ck.Seed != nil && ckc.Seed != nil && ck.Seed != ckc.Seed, tag+"-compressed-EvaluationKey-CopyNew-has-its-own-seed")
+		if ckc.Seed != nil && ck.Seed != nil {
+			sk := vSnapshot(ck)
+			ckw := ck.CopyNew()
+			for i := range ckw.Seed {
+				ckw.Seed[i] = 0
+			}
+			vAssertUnchanged(sk, tag+"-compressed-EvaluationKey-wiping-the-seed-of-a-copy-leaves-the-original-unchanged")
+		}
 		vAssert(ck.Expand(params, nil) == nil, tag+"-compressed-EvaluationKey-original-expands")
 		vAssert(ckc.Expand(params, nil) == nil, tag+"-compressed-EvaluationKey-copy-expands")
 		cg := c.Kgen.GenGaloisKeyNew(params.GaloisElement(1), c.Sk, EvaluationKeyParameters{Compressed: true})
@@ -242,5 +253,34 @@ func VerifH_C10_DeepCopies() {
 		mdc := md.CopyNew()
 		vAssertDeepEqual(md, mdc, tag+"-MetaData-CopyNew-equals-original")
 	}
+	// ringqp uniform sampler re-keyed with WithPRNG: equals a fresh sampler on the new source, on Q and on P
+	{
+		c := VerifSetup_Ctx(2, vIsAlgebraic())
+		rQP := c.Params.RingQP()
+		src, key1, key2 := VerifSetup_PRNGC10("s"), VerifSetup_PRNGC10("k"), VerifSetup_PRNGC10("k")
+		vPRNGKey(key1, "k")
+		vPRNGKey(key2, "k")
+		parent := ringqp.NewUniformSampler(src, *rQP)
+		child := parent.WithPRNG(key1)
+		fresh := ringqp.NewUniformSampler(key2, *rQP)
+		a, b := rQP.NewPoly(), rQP.NewPoly()
+		panicked := vPanics(func() {
+			child.Read(a)
+			fresh.Read(b)
+		})
+		vAssert(!panicked, "ringqp-UniformSampler-WithPRNG-reads-without-panic")
+		if !panicked {
+			vAssertPolyEq(rQP.RingQ, a.Q, b.Q, "ringqp-UniformSampler-WithPRNG-equals-a-fresh-sampler-on-Q")
+			vAssertPolyEq(rQP.RingP, a.P, b.P, "ringqp-UniformSampler-WithPRNG-equals-a-fresh-sampler-on-P")
+		}
+	}
 	vCover("C10-deepcopies-reached")
+}
+
+func VerifSetup_PRNGC10(key string) *sampling.KeyedPRNG {
+	p, err := sampling.NewKeyedPRNG([]byte(key))
+	if err != nil {
+		panic(err)
+	}
+	return p
 }
